@@ -265,11 +265,8 @@ func UpdateOps(from string, worlds []*WorldDef, steps []UpdateStep) []string {
 
 // ---------- the C16 update scenario
 
-// RunUpdateScenario drives a live manager over the strict fakes through: full sync of (c, ps); the update steps,
-// each through its event handler; (optionally one failing `ipset create` during a sync, then a clean sync); the
-// periodic full sync.  It compares the galaxy-owned part of the final kernel state with a from-scratch sync of the
-// final cluster state and queues the final dump for the walk / API comparison (Batch.AddDump).
-func RunUpdateScenario(e *hx.Env, rep *hx.Report, bt *Batch, name string, rg *rand.Rand, c *Cluster, ps []NetPol) *CaseResult {
+// GenUpdateHistory renders an update scenario as a history (the C15 op language; `check` = final comparison).
+func GenUpdateHistory(rg *rand.Rand, c *Cluster, ps []NetPol) []string {
 	for _, p := range ps {
 		// the strict ipset keeps ONE element per key: a rule that lists a network both as cidr and as except is
 		// outside the compared fragment (the set flips on every sync; see report)
@@ -282,11 +279,7 @@ func RunUpdateScenario(e *hx.Env, rep *hx.Report, bt *Batch, name string, rg *ra
 	if len(worlds) == 0 {
 		return nil
 	}
-	final := worlds[len(worlds)-1]
-	final.C.Node = c.Node
-	// replay = a C15-style history (the C16 replayer accepts it through `-replay` of c15 as well)
-	var hist []string
-	hist = append(hist, "world A")
+	hist := []string{"world A"}
 	for _, n := range a.C.NSs {
 		hist = append(hist, n.Line())
 	}
@@ -298,39 +291,80 @@ func RunUpdateScenario(e *hx.Env, rep *hx.Report, bt *Batch, name string, rg *ra
 	}
 	hist = append(hist, "fullsync A")
 	hist = append(hist, UpdateOps("A", worlds, steps)...)
-	lastName := fmt.Sprintf("U%d", len(worlds))
-	faulty := rg.Intn(6) == 0
-	if faulty {
-		hist = append(hist, "fault ipset-create * 1", "fullsync "+lastName)
+	last := fmt.Sprintf("U%d", len(worlds))
+	if rg.Intn(6) == 0 {
+		hist = append(hist, "fault ipset-create * 1", "fullsync "+last)
 	}
-	hist = append(hist, "fullsync "+lastName, "check "+lastName)
+	return append(hist, "fullsync "+last, "check "+last)
+}
 
+// staleOnly: the event state differs from the from-scratch state only by extra set members that are addresses of
+// pods relabelled since the last resync.
+func staleOnly(got, want *Dump, staleIPs map[string]bool) bool {
+	g, w := got.Owned(), want.Owned()
+	gc, wc := *g, *w
+	gc.Sets, wc.Sets = map[string]SetDump{}, map[string]SetDump{}
+	if gc.Canon() != wc.Canon() { // chains
+		return false
+	}
+	if len(g.Sets) != len(w.Sets) {
+		return false
+	}
+	for n, ws := range w.Sets {
+		gs, ok := g.Sets[n]
+		if !ok || gs.Type != ws.Type {
+			return false
+		}
+		have := map[string]bool{}
+		for _, e := range gs.Entries {
+			have[e] = true
+		}
+		wantSet := map[string]bool{}
+		for _, e := range ws.Entries {
+			wantSet[e] = true
+			if !have[e] {
+				return false
+			}
+		}
+		for _, e := range gs.Entries {
+			if !wantSet[e] && !staleIPs[e] {
+				return false
+			}
+		}
+	}
+	return true
+}
+
+// RunC16History interprets a history on a live manager over the strict fakes.  After EVERY event the kernel state
+// is judged as it is (before any periodic sync): all flows are walked on the real dump and compared with a
+// from-scratch compile of the current cluster (Batch.AddEvent).  `check W` compares the galaxy-owned final state with
+// a from-scratch sync of W and queues the final dump for the walk / API comparison (Batch.AddDump).
+// `flow` lines, if any, replace the generated flow set.
+func RunC16History(e *hx.Env, rep *hx.Report, bt *Batch, name string, hist []string) ([]*CaseResult, error) {
+	var results []*CaseResult
+	worlds := map[string]*WorldDef{}
+	cur := ""
+	var fixedFlows []Flow
+	for _, l := range hist {
+		if strings.HasPrefix(l, "flow ") {
+			var c Cluster
+			var ps []NetPol
+			f, err := ParseLine(l, &c, &ps)
+			if err != nil {
+				return nil, err
+			}
+			fixedFlows = append(fixedFlows, *f)
+		}
+	}
+	flowsOf := func(w *WorldDef) []Flow {
+		if fixedFlows != nil {
+			return fixedFlows
+		}
+		return Flows(&w.C, w.PS)
+	}
 	sb := NewStrictBackend()
-	fips := &FaultIPS{Interface: sb.Backend.Ips}
-	sb.Backend.Ips = fips
-	var m *Manager
-	var eventsOnly, got *Dump
-	out := hx.Guard(60*time.Second, func() {
-		m = NewManager(sb.Backend, c.Node, nil)
-		m.World.Set(&a.C, a.PS)
-		m.FullSync()
-		prev := a
-		for i, w := range worlds {
-			w.C.Node = c.Node
-			m.World.Set(&w.C, w.PS)
-			deliver(m, steps[i], prev, w)
-			rep.Hit("update:" + steps[i].Hit)
-			prev = w
-		}
-		eventsOnly, _ = TakeDump(sb.Backend)
-		if faulty {
-			fips.Arm("", 1)
-			m.FullSync()
-			rep.Hit("update:ipset-create-failed")
-		}
-		m.FullSync()
-		got, _ = TakeDump(sb.Backend)
-	})
+	m := NewManager(sb.Backend, LocalNode, nil)
+	staleIPs := map[string]bool{}
 	violate := func(sig, what string) {
 		rep.Hit("violation:" + sig)
 		if Seen[sig] {
@@ -338,35 +372,178 @@ func RunUpdateScenario(e *hx.Env, rep *hx.Report, bt *Batch, name string, rg *ra
 		}
 		Seen[sig] = true
 		rep.Violations = append(rep.Violations, hx.Violation{Signature: sig, What: what,
-			Replay: e.WriteReplay("C16", "history", name+"-"+sig, []string{"replay with: harness c15 -replay <file>"}, hist)})
+			Replay: e.WriteReplay("C16", "history", name+"-"+sig, nil, hist)})
 	}
-	if out != "ok" || got == nil || eventsOnly == nil {
-		violate("update-sync-"+strings.SplitN(out, ":", 2)[0], "update scenario: "+out)
-		return nil
+	fresh := func(w *WorldDef) (*Dump, error) {
+		fb := NewStrictBackend()
+		fm := NewManager(fb.Backend, LocalNode, nil)
+		fm.World.Set(&w.C, w.PS)
+		fm.FullSync()
+		return TakeDump(fb.Backend)
 	}
-	fresh := NewStrictBackend()
-	fm := NewManager(fresh.Backend, c.Node, nil)
-	fm.World.Set(&final.C, final.PS)
-	fm.FullSync()
-	want, err := TakeDump(fresh.Backend)
-	if err != nil {
-		violate("update-sync-dump", err.Error())
-		return nil
+	nEv := 0
+	for _, line := range hist {
+		w := strings.Fields(line)
+		if len(w) == 0 {
+			continue
+		}
+		switch w[0] {
+		case "world":
+			cur = w[1]
+			worlds[cur] = &WorldDef{C: Cluster{Node: LocalNode}}
+		case "ns", "pod", "pol":
+			wd := worlds[cur]
+			if wd == nil {
+				return results, fmt.Errorf("%q outside a world", line)
+			}
+			if _, err := ParseLine(line, &wd.C, &wd.PS); err != nil {
+				return results, err
+			}
+		case "flow":
+		case "fault":
+			n := 0
+			fmt.Sscanf(w[3], "%d", &n)
+			match := w[2]
+			if match == "*" {
+				match = ""
+			}
+			sb.Fault.Arm(match, n)
+			rep.Hit("update:ipset-create-fault-armed")
+		case "fullsync":
+			wd := worlds[w[1]]
+			if wd == nil {
+				return results, fmt.Errorf("unknown world in %q", line)
+			}
+			wd.C.Node = LocalNode
+			m.World.Set(&wd.C, wd.PS)
+			if out := hx.Guard(30*time.Second, func() { m.FullSync() }); out != "ok" {
+				violate("update-sync-"+strings.SplitN(out, ":", 2)[0], line+": "+out)
+				return results, nil
+			}
+			staleIPs = map[string]bool{}
+		case "ev":
+			if len(w) < 5 {
+				return results, fmt.Errorf("bad line %q", line)
+			}
+			wd, old := worlds[w[2]], worlds[w[4]]
+			if wd == nil || old == nil {
+				return results, fmt.Errorf("unknown world in %q", line)
+			}
+			wd.C.Node = LocalNode
+			st := UpdateStep{Kind: w[1], Key: w[3]}
+			if len(w) >= 6 && strings.HasPrefix(w[5], "#") {
+				rep.Hit("update:" + w[5][1:])
+			}
+			m.World.Set(&wd.C, wd.PS)
+			if out := hx.Guard(30*time.Second, func() { deliver(m, st, old, wd) }); out != "ok" {
+				violate("update-sync-"+strings.SplitN(out, ":", 2)[0], line+": "+out)
+				return results, nil
+			}
+			if st.Kind == "updpod" {
+				nsname := strings.SplitN(st.Key, "/", 2)
+				for i := range old.C.Pods {
+					q := &old.C.Pods[i]
+					if q.NS == nsname[0] && q.Name == nsname[1] && q.HasIP {
+						staleIPs[IPStr(q.IP)] = true
+						roleHits(rep, old, wd, q)
+					}
+				}
+			} else {
+				staleIPs = map[string]bool{} // the policy handlers recompute every set
+			}
+			got, err := TakeDump(sb.Backend)
+			if err != nil {
+				return results, err
+			}
+			want, err := fresh(wd)
+			if err != nil {
+				return results, err
+			}
+			so := staleOnly(got, want, staleIPs)
+			switch {
+			case got.Owned().Canon() == want.Owned().Canon():
+				rep.Hit("event-state:equals-from-scratch")
+			case so:
+				rep.Hit("event-state:stale-members-only")
+			default:
+				rep.Hit("event-state:differs-otherwise")
+			}
+			nEv++
+			flows := flowsOf(wd)
+			if fixedFlows == nil && len(flows) > 400 {
+				step := len(flows)/400 + 1
+				var fs []Flow
+				for i := 0; i < len(flows); i += step {
+					fs = append(fs, flows[i])
+				}
+				flows = fs
+			}
+			results = append(results, bt.AddEvent(fmt.Sprintf("%s-e%d", name, nEv), &wd.C, wd.PS, flows, got, so, hist))
+		case "check":
+			wd := worlds[w[1]]
+			if wd == nil {
+				return results, fmt.Errorf("unknown world in %q", line)
+			}
+			got, err := TakeDump(sb.Backend)
+			if err != nil {
+				return results, err
+			}
+			want, err := fresh(wd)
+			if err != nil {
+				return results, err
+			}
+			if got.Owned().Canon() != want.Owned().Canon() {
+				violate("update-state-differs-from-scratch", "after the update transitions and the periodic full sync the galaxy-owned "+
+					"sets / chains differ from a from-scratch sync of the final state: "+
+					diffHint(got.Owned().Canon(), want.Owned().Canon(), true)+" vs "+diffHint(got.Owned().Canon(), want.Owned().Canon(), false))
+			} else {
+				rep.Hit("update:final-state-equals-from-scratch")
+			}
+			results = append(results, bt.AddDump(name, &wd.C, wd.PS, flowsOf(wd), got, want.Canon(), hist))
+		default:
+			return results, fmt.Errorf("bad line %q", line)
+		}
 	}
-	if eventsOnly.Owned().Canon() == want.Owned().Canon() {
-		rep.Hit("update:events-alone-converged")
-	} else {
-		rep.Hit("update:events-alone-NOT-converged(before periodic sync)")
+	return results, nil
+}
+
+// roleHits records in which role a relabelled running pod changes: policy target / allowed peer, entering / leaving.
+func roleHits(rep *hx.Report, old, cur *WorldDef, q *Pod) {
+	var nq *Pod
+	for i := range cur.C.Pods {
+		if cur.C.Pods[i].NS == q.NS && cur.C.Pods[i].Name == q.Name {
+			nq = &cur.C.Pods[i]
+		}
 	}
-	if got.Owned().Canon() != want.Owned().Canon() {
-		violate("update-state-differs-from-scratch", "after the update transitions and the periodic full sync the galaxy-owned "+
-			"sets / chains differ from a from-scratch sync of the final state: "+
-			diffHint(got.Owned().Canon(), want.Owned().Canon(), true)+" vs "+diffHint(got.Owned().Canon(), want.Owned().Canon(), false))
-	} else {
-		rep.Hit("update:final-state-equals-from-scratch")
+	if nq == nil {
+		return
 	}
-	flows := Flows(&final.C, final.PS)
-	return bt.AddDump(name, &final.C, final.PS, flows, got, want.Canon(), hist)
+	for i := range cur.PS {
+		p := &cur.PS[i]
+		a, b := p.Selects(q), p.Selects(nq)
+		if !a && b {
+			rep.Hit("relabel:enters-target-set")
+		}
+		if a && !b {
+			rep.Hit("relabel:leaves-target-set")
+		}
+		for _, rs := range [][]Rule{p.Ingress, p.Egress} {
+			for _, r := range rs {
+				for _, pe := range r.Peers {
+					if pe.Kind != "pod" && pe.Kind != "both" {
+						continue
+					}
+					x, y := matchSel(pe.PodSel, q.Labels), matchSel(pe.PodSel, nq.Labels)
+					if !x && y {
+						rep.Hit("relabel:enters-peer-set")
+					}
+					if x && !y {
+						rep.Hit("relabel:leaves-peer-set")
+					}
+				}
+			}
+		}
+	}
 }
 
 func deliver(m *Manager, st UpdateStep, prev, cur *WorldDef) {
@@ -395,6 +572,10 @@ func deliver(m *Manager, st UpdateStep, prev, cur *WorldDef) {
 	case "delpol":
 		m.PM.DeletePolicy(findPol(prev).K8s())
 	case "updpod":
-		m.PM.UpdatePod(findPod(prev).K8s(), findPod(cur).K8s())
+		op, np := findPod(prev), findPod(cur)
+		if op == nil {
+			op = np
+		}
+		m.PM.UpdatePod(op.K8s(), np.K8s())
 	}
 }
